@@ -531,6 +531,16 @@ def execute(case):
                                    "./input.rs", "../w/input.rs"][case["hashseed"] % 8]]
         elif case["delivery"] == "module":
             files["w/main.rs"] = "mod input;\nfn  main( ){ }\n"
+            if case["hashseed"] % 3 == 1 and case["via"] == "file":
+                # the module is declared through an absolute #[path] that is not in normal form (a doubled slash, a
+                # `/./`), below the directory of a rustfmt.toml with an ignore list
+                k = (case["hashseed"] // 3) % 4
+                ab = [os.path.dirname(sc.root) + "//" + os.path.basename(sc.root) + "/w/input.rs", sc.root + "/w//input.rs",
+                      sc.root + "/./w/input.rs", sc.root + "//w/./input.rs"][k]
+                files["w/main.rs"] = '#[path = "%s"]\nmod input;\nfn  main( ){ }\n' % ab
+                if "ignore" not in files["w/rustfmt.toml"]:
+                    files["w/rustfmt.toml"] += 'ignore = ["zzz.rs"]\n'
+                v.probe("absolute-module-path-not-normal")
             files["w/input.rs"] = spec
             inv["argv"] = argv + ["main.rs" if case["hashseed"] % 3 else "$ROOT/w/main.rs"]
         else:
